@@ -88,7 +88,7 @@ TARGETS = [
     ("Core", TXS, "Transaction", None, f, "tx_" + f) for f in ("validate_read", "validate")
 ] + [
     ("Pool", TPOOL, "TransactionPool", None, f, "tpool_" + f) for f in (
-        "add_to_pool", "add_to_stempool", "add_to_txpool", "validate_raw_tx", "verify_kernel_variants",
+        "add_to_pool", "add_to_stempool", "add_to_txpool", "verify_kernel_variants",
         "reconcile_block", "evict_from_txpool")
 ] + [
     ("Pool", POOL, "Pool", None, f, "pool_" + f) for f in (
